@@ -4,6 +4,8 @@ C04 — a parser is emitted exactly for the LALR(1) grammars.
 -/
 import KikiVerif.Model.Table
 import KikiVerif.Proofs.Table
+import KikiVerif.Proofs.NoPanic
+import KikiVerif.Proofs.Encode
 
 namespace KikiVerif.C04
 open KikiVerif.Table KikiVerif.Machine KikiVerif.LR
@@ -40,9 +42,27 @@ theorem C04_conflict_genuine (c : Ctx) (m : Machine) (s : Nat) (e n : Item)
     (h : machineToTable c m = .conflict s e n) : Genuine c m s e n :=
   conflict_genuine c m s e n h
 
+/-- **C04 for the generator's own automaton, every validated file**: whenever `validated_ast_to_machine` returns a
+machine `m`, `machine_to_table` does exactly one of two things — it returns a table and `m` has no pair of items
+demanding different actions on one lookahead column, or it reports a conflict and that conflict is such a pair.
+There is no third outcome (no panic: `Proofs/NoPanic`), so *a parser is emitted iff the generated automaton is
+conflict-free*.  (That the generated automaton is *the* LALR(1) automaton of the grammar — exact lookahead
+sets — is the part compared with an independent construction, not proved.) -/
+theorem C04_emitted_iff_conflict_free (vf : VFile.File) (enc : Encode.Enc) (m : Machine) (fuel : Nat)
+    (he : Encode.encode vf = some enc) (hm : machineOf enc.ctx fuel = some (some m)) :
+    ((∃ t, machineToTable enc.ctx m = .ok t) ∧ ¬ ∃ s e n, Genuine enc.ctx m s e n) ∨
+    (∃ s e n, machineToTable enc.ctx m = .conflict s e n ∧ Genuine enc.ctx m s e n) := by
+  have ok := Encode.encode_ok he
+  obtain ⟨fm, _, mok⟩ := machineOf_ok ok.terms hm
+  cases h : machineToTable enc.ctx m with
+  | ok t => exact Or.inl ⟨⟨t, rfl⟩, ok_conflict_free _ _ t h⟩
+  | conflict s e n => exact Or.inr ⟨s, e, n, rfl, conflict_genuine _ _ s e n h⟩
+  | panic site => exact absurd h (NoPanic.machineToTable_no_panic ok mok site)
+
 end KikiVerif.C04
 
 #print axioms KikiVerif.C04.C04_setAction_ok_iff
 #print axioms KikiVerif.C04.C04_setAction_fresh
 #print axioms KikiVerif.C04.C04_ok_conflict_free
 #print axioms KikiVerif.C04.C04_conflict_genuine
+#print axioms KikiVerif.C04.C04_emitted_iff_conflict_free
